@@ -905,13 +905,16 @@ func (repo *Repository) consolidate(ctx context.Context) error {
 
 	newBranches := Branches{newMainBranch}
 
-	// Reconnect previously oldest branch to the new main branch.
-	newOldestBranch, err := oldestBranch.Truncate(ctx, repo.store, newMainBranch, linkHeight)
-	if err != nil {
-		return errors.Wrap(err, "truncate previous oldest to main")
-	}
+	// Reconnect previously oldest branch to the new main branch. If it was trimmed down to the link
+	// height (header marked invalid) then there is nothing left of it above the new main branch.
+	if oldestBranch.Height() > linkHeight {
+		newOldestBranch, err := oldestBranch.Truncate(ctx, repo.store, newMainBranch, linkHeight)
+		if err != nil {
+			return errors.Wrap(err, "truncate previous oldest to main")
+		}
 
-	newBranches = append(newBranches, newOldestBranch)
+		newBranches = append(newBranches, newOldestBranch)
+	}
 
 	// Sort by parent height so they can be properly connected to the new main branch.
 	sort.Sort(repo.branches)
